@@ -342,7 +342,10 @@ fn build_type(
                         name,
                         type_.to_token_stream()
                     );
-                    for ident_path in implementations {
+                    // Every one of the conflicting paths gets this message, so listing all of
+                    // them each time makes the output quadratic in the size of the hierarchy.
+                    const MAX_LISTED_PATHS: usize = 8;
+                    for ident_path in implementations.iter().take(MAX_LISTED_PATHS) {
                         conflicting_impl_message.push_str("  - `");
                         conflicting_impl_message.push_str(
                             &ident_path
@@ -352,6 +355,12 @@ fn build_type(
                                 .join("."),
                         );
                         conflicting_impl_message.push_str("`\n");
+                    }
+                    if implementations.len() > MAX_LISTED_PATHS {
+                        conflicting_impl_message.push_str(&format!(
+                            "  - ... and {} more\n",
+                            implementations.len() - MAX_LISTED_PATHS
+                        ));
                     }
                     let conflicting_impl_doc = doc_to_tokens(false, Some(conflicting_impl_message.trim()));
                     let conflicting_impl_ident = quote::format_ident!(
